@@ -233,4 +233,41 @@ SPECS += [
 	return 0, nil''')]),
  dict(name='benign-sizes-div', kind='benign', rule='all', why='Record.Sizes: rounding through division',
       edits=[('store/item.go', '	return recSize, ((recSize + 255) >> 8) << 8', '	return recSize, (recSize + PADDING - 1) / PADDING * PADDING')]),
+ # ---------------- round 3: benign edits around the hint layer / helper rules
+ dict(name='benign-getitem-loop-gt-minus1', kind='benign', rule='all', why='descending loop written with > -1',
+      edits=[('store/hint.go', '	for i := h.maxChunkID; i >= 0; i-- {\n		if !memOnly && merged != nil', '	for i := h.maxChunkID; i > -1; i -= 1 {\n		if !memOnly && merged != nil')]),
+ dict(name='benign-setitem-inline-last-split', kind='benign', rule='all', why='current split selected without the local l',
+      edits=[('store/hint.go', '	l := len(chunk.splits)\n	sp := chunk.splits[l-1]\n	if !sp.buf.Set', '	sp := chunk.splits[len(chunk.splits)-1]\n	if !sp.buf.Set')]),
+ dict(name='benign-trydump-local-bound', kind='benign', rule='all', why='old-splits loop bound through a local',
+      edits=[('store/hint.go', '	j := 0\n	for ; j < l-1; j++ {', '	j := 0\n	last := l - 1\n	for ; j < last; j++ {')]),
+ dict(name='benign-findvalid-uses-parser', kind='benign', rule='all', why='findValidPaths calls parseSplitIDFromName',
+      edits=[('store/hint.go', '		sid, err := strconv.Atoi(name[4:7])', '		sid, err := parseSplitIDFromName(name)')]),
+ dict(name='benign-wraprecord-local-size', kind='benign', rule='all', why='padded size through a local',
+      edits=[('store/datafile.go', '	_, rec.Payload.RecSize = rec.Sizes()\n	return &WriteRecord{', '	_, padded := rec.Sizes()\n	rec.Payload.RecSize = padded\n	return &WriteRecord{')]),
+ dict(name='benign-compareandset-reordered', kind='benign', rule='all', why='disjuncts reordered, reason through a constant',
+      edits=[('store/collision.go', '		if !ok || reason == "gc" || it.Pos.CmpKey() >= old.Pos.CmpKey() {', '		const gcReason = "gc"\n		if reason == gcReason || !ok || old.Pos.CmpKey() <= it.Pos.CmpKey() {')]),
+ dict(name='benign-delete-version-parenthesised', kind='benign', rule='all', why='-(abs(oldv) + 1)',
+      edits=[('store/bucket.go', '		ver = -abs(oldv) - 1', '		ver = -(abs(oldv) + 1)')]),
+ dict(name='benign-copy-renamed-size', kind='benign', rule='all', why='CArray.Copy local renamed, make uses it',
+      edits=[('cmem/cmem.go', '	size := len(arr.Body)\n	if arr.Addr == 0 {\n		arrNew.Body = make([]byte, size)', '	n := len(arr.Body)\n	size := n\n	if arr.Addr == 0 {\n		arrNew.Body = make([]byte, len(arr.Body))')]),
+ dict(name='benign-fatal-geq', kind='benign', rule='all', why='level >= FATAL',
+      edits=[('loghub/errorlog.go', '	if level == FATAL {\n		os.Exit(1)', '	if level >= FATAL {\n		os.Exit(1)')]),
+ dict(name='benign-nextvalid-size-local', kind='benign', rule='all', why='file size through a local',
+      edits=[('store/datafile.go', '	for int64(offset2) < st.Size() {', '	fsize := st.Size()\n	for int64(offset2) < fsize {')]),
+ dict(name='benign-pathhash-range-loop', kind='benign', rule='all', why='setKeyHashByPath with a range loop',
+      edits=[('store/key.go', '	for i := 0; i < len(v); i++ {\n		ki.KeyHash |= (uint64(v[i]) << shift)', '	for _, d := range v {\n		ki.KeyHash |= (uint64(d) << shift)')]),
+ dict(name='benign-removehints-inline-glob', kind='benign', rule='all', why='glob pattern inline',
+      edits=[('store/hint.go', '	pattern := h.getPath(chunkID, -1, false)\n	paths, _ := filepath.Glob(pattern)\n	for _, p := range paths {\n		utils.Remove(p)\n	}\n}\n\nfunc (hm *hintMgr) findValidPaths', '	paths, _ := filepath.Glob(h.getPath(chunkID, -1, false))\n	for _, p := range paths {\n		utils.Remove(p)\n	}\n}\n\nfunc (hm *hintMgr) findValidPaths')]),
+ dict(name='benign-numkey-continue', kind='benign', rule='all', why='NumKey with an early continue',
+      edits=[('store/hstore.go', '		if b.State == BUCKET_STAT_READY {\n			n += int(b.htree.levels[0][0].count)\n		}', '		if b.State != BUCKET_STAT_READY {\n			continue\n		}\n		n += int(b.htree.levels[0][0].count)')]),
+ dict(name='benign-rebuild-extra-logging', kind='benign', rule='all', why='logging in the rebuild loop',
+      edits=[('store/bucket.go', '		khash := getKeyHash(rec.Key)\n		p := rec.Payload\n		p.Decompress()', '		khash := getKeyHash(rec.Key)\n		p := rec.Payload\n		if p.Ver < 0 {\n			logger.Debugf("rebuild: tombstone at %d", offset)\n		}\n		p.Decompress()')]),
+ dict(name='benign-adapter-set-field-order', kind='benign', rule='all', why='payload fields assigned in another order',
+      edits=[('gobeansdb/store.go', '	payload.Flag = uint32(item.Flag)\n	payload.CArray = item.CArray\n	payload.Ver = int32(item.Exptime)', '	payload.Ver = int32(item.Exptime)\n	payload.CArray = item.CArray\n	payload.Flag = uint32(item.Flag)')]),
+ dict(name='benign-splitkeys-split', kind='benign', rule='all', why='isSpace written with a switch-free comparison on the other side',
+      edits=[('memcache/protocol.go', "	return r == ' '\n", "	return r == 0x20\n")]),
+ dict(name='benign-dump-err-first', kind='benign', rule='all', why='hintMgr.dump checks the error with an early path',
+      edits=[('store/hint.go', '	sp.file, err = sp.buf.Dump(path)\n	if err == nil {\n		h.maxDumpedHintID.setIfLarger(chunkID, splitID)\n	}\n	sp.buf = nil', '	sp.file, err = sp.buf.Dump(path)\n	if err != nil {\n		logger.Errorf("dump %s: %v", path, err)\n	} else {\n		h.maxDumpedHintID.setIfLarger(chunkID, splitID)\n	}\n	sp.buf = nil')]),
+ dict(name='benign-incr-hash-after-flag', kind='benign', rule='all', why='incr sets the flag after the body, hash last',
+      edits=[('store/bucket.go', '	payload.Flag = FLAG_INCR\n	payload.Ver = ver\n	payload.TS = uint32(time.Now().Unix())\n	s := strconv.Itoa(value)\n	payload.Body = []byte(s)\n	payload.CalcValueHash()', '	payload.Ver = ver\n	payload.TS = uint32(time.Now().Unix())\n	payload.Body = []byte(strconv.Itoa(value))\n	payload.Flag = FLAG_INCR\n	payload.CalcValueHash()')]),
 ]
